@@ -7,7 +7,7 @@ use petgraph::adj::List;
 use petgraph::graph::{Graph, NodeIndex};
 use petgraph::visit::{
     depth_first_search, Bfs, Control, Dfs, DfsEvent, DfsPostOrder, IntoNeighbors, IntoNeighborsDirected,
-    IntoNodeIdentifiers, NodeFiltered, Reversed, Time, Topo, Visitable, Walker,
+    EdgeFiltered, EdgeRef, IntoNodeIdentifiers, NodeFiltered, Reversed, Time, Topo, UndirectedAdaptor, Visitable, Walker,
 };
 use petgraph::{Directed, Undirected};
 use proptest::prelude::*;
@@ -709,7 +709,7 @@ pub fn run(c: &Case) -> Outcome {
             check_topo($g, &view, c, &mut obs)?;
         }};
     }
-    let enc = c.enc % 9;
+    let enc = c.enc % 12;
     match (enc, a.directed) {
         (0, true) => {
             let g: Graph<usize, i32, Directed, u32> = to_graph(&a, |w| w);
@@ -798,6 +798,43 @@ pub fn run(c: &Case) -> Outcome {
             }
             obs.label("MatrixGraph, holes");
         }
+        (9, d) => {
+            // edge-restricted view: edge i of the abstract graph is edge index i of the Graph
+            let keep_e = |i: usize| (c.filter >> (i % 16)) & 1 == 1;
+            let sub = AGraph { directed: d, n, edges: a.edges.iter().copied().enumerate().filter(|&(i, _)| keep_e(i)).map(|(_, e)| e).collect() };
+            let ids = (0..n).map(|i| Some(NodeIndex::new(i))).collect();
+            if d {
+                let g: Graph<usize, i32, Directed, u32> = to_graph(&a, |w| w);
+                let f = EdgeFiltered::from_fn(&g, |e| keep_e(e.id().index()));
+                both!(&f, View::new(&sub, all, ids));
+            } else {
+                let g: Graph<usize, i32, Undirected, u32> = to_graph(&a, |w| w);
+                let f = EdgeFiltered::from_fn(&g, |e| keep_e(e.id().index()));
+                check_basic(&f, &View::new(&sub, all, ids), c, &mut obs)?;
+            }
+            obs.label("EdgeFiltered<&Graph>");
+        }
+        (10, _) => {
+            // a directed graph seen through UndirectedAdaptor (loops left out: the adaptor lists a
+            // loop from both of its halves, an undirected graph lists it once)
+            let sym = AGraph { directed: false, n, edges: a.edges.iter().copied().filter(|e| e.0 != e.1).collect() };
+            let dir = AGraph { directed: true, n, edges: sym.edges.clone() };
+            let (g, map) = to_stable_holes::<i32, Directed, u32>(&dir, c.salt as u64 + 3, |w| w);
+            check_basic(UndirectedAdaptor(&g), &View::new(&sym, all, map.into_iter().map(Some).collect()), c, &mut obs)?;
+            obs.label("UndirectedAdaptor<&StableGraph>");
+        }
+        (11, true) => {
+            // depth 2: Reversed over a node-induced subgraph of a StableGraph with vacancies
+            let keep: Vec<bool> = (0..n).map(|i| (c.filter >> (i % 16)) & 1 == 1).collect();
+            let sub = AGraph { directed: true, n, edges: a.edges.iter().copied().filter(|&(u, w, _)| keep[u] && keep[w]).map(|(u, w, x)| (w, u, x)).collect() };
+            let live: Vec<usize> = (0..n).filter(|&i| keep[i]).collect();
+            let (g, map) = to_stable_holes::<i32, Directed, u32>(&a, c.salt as u64 + 11, |w| w);
+            let kept: std::collections::HashSet<NodeIndex<u32>> = (0..n).filter(|&i| keep[i]).map(|i| map[i]).collect();
+            let ids = (0..n).map(|i| if keep[i] { Some(map[i]) } else { None }).collect();
+            let f = NodeFiltered::from_fn(&g, |x: NodeIndex<u32>| kept.contains(&x));
+            both!(Reversed(&f), View::new(&sub, live, ids));
+            obs.label("Reversed<&NodeFiltered<&StableGraph>>");
+        }
         (_, true) => {
             let (g, map) = to_stable_holes::<i32, Directed, u8>(&a, c.salt as u64 + 7, |w| w);
             let rev = AGraph { directed: true, n, edges: a.edges.iter().map(|&(u, w, x)| (w, u, x)).collect() };
@@ -818,7 +855,7 @@ pub fn run(c: &Case) -> Outcome {
 pub fn property() -> Property {
     Property {
         id: "C08",
-        rule: "random multigraphs with self-loops (1..=10 nodes quick, 8 shape classes) stored as Graph / StableGraph+MatrixGraph with vacancies / GraphMap / Csr / adj::List / Reversed / NodeFiltered; Dfs/Bfs/DfsPostOrder (with move_to phases and reset) and Topo (new / reset / with_initials) checked against naive reachability, hop distances and a predecessor fixpoint; depth_first_search event streams under generated Continue/Prune/Break scripts checked by an independent stream replayer and compared exactly with a reference recursion; non-trivial = the run had a cross/forward edge, a prune or break, or (Topo) a cyclic part next to an emitted acyclic part; distinct by fingerprint of the generated case",
+        rule: "random multigraphs with self-loops (1..=10 nodes quick, 8 shape classes) stored as Graph / StableGraph+MatrixGraph with vacancies / GraphMap / Csr / adj::List / Reversed / NodeFiltered / EdgeFiltered / UndirectedAdaptor over a StableGraph with vacancies / Reversed<NodeFiltered<StableGraph>>; Dfs/Bfs/DfsPostOrder (with move_to phases and reset) and Topo (new / reset / with_initials) checked against naive reachability, hop distances and a predecessor fixpoint; depth_first_search event streams under generated Continue/Prune/Break scripts (visitor return types Control<B>, Result<Control<B>,E> with Ok-only and Err-as-break answers, and ()) checked by an independent stream replayer and compared exactly with a reference recursion; non-trivial = the run had a cross/forward edge, a prune or break, or (Topo) a cyclic part next to an emitted acyclic part; distinct by fingerprint of the generated case",
         assumptions: &[
             "Prune answered to an edge event: both the documented reading (go to Finish) and the implemented one (skip only that edge) are accepted",
             "DfsPostOrder::move_to is only exercised after the previous phase ran to exhaustion",
